@@ -242,7 +242,7 @@ def minimise(obj):
                     db = d2
     if fp.startswith("slow@"):
         # every probe of a slow input costs a full budget: few, coarse steps only
-        raw, steps = ddmin(raw, lambda s: keeps(s, db), max_steps=24)
+        raw, steps = ddmin(raw, lambda s: keeps(s, db), max_steps=8)
     else:
         raw, steps = ddmin(raw, lambda s: keeps(s, db))
     return {"raw": raw, "db": db, "steps": steps, "reproduced": True}
